@@ -88,7 +88,16 @@ def run(tier):
     # the lexer model decides which inputs contain an invalid lexeme
     small = [(c[0], c[1]) for c in cases if len(c[1]) <= 4096 and c[2] != "tokens"][: (3000 if tier == "quick" else 60000)]
     model = C.run_model([("lex-delta", cid, b.hex() if b else "()") for cid, b in small], ck.work + "/lexmodel", timeout=3000)
-    stats = collections.Counter(); kinds = collections.Counter(); bad = 0; maxratio = (0.0, "")
+    # node accounting: Model/DeltaNodes.v on the token kinds the real lexer produced
+    nitems = []
+    for cid, b, kind in cases:
+        f = impl.get(cid, ["missing"])
+        if f[0] in ("ok", "parseerr") and len(b) <= 8192:
+            d = dict(x.split("=", 1) for x in f[1:] if "=" in x)
+            if "kinds" in d: nitems.append(("nodes", cid, "(codes %s)" % d["kinds"]))
+    nitems = nitems[: (4000 if tier == "quick" else 120000)]
+    nmodel = C.run_model(nitems, ck.work + "/nodemodel", timeout=3000)
+    stats = collections.Counter(); kinds = collections.Counter(); bad = 0; maxratio = (0.0, ""); ncmp = 0
     for cid, b, kind in cases:
         f = impl.get(cid, ["missing"]); fr = implr.get(cid, ["missing"])
         kinds[kind] += 1
@@ -108,6 +117,12 @@ def run(tier):
             if nodes > ctx + factor * ntok:
                 bad += 1; ck.violation("node-buffer-overrun", "%d nodes for %d tokens exceed the reserved %d + %d * tokens" % (nodes, ntok, ctx, factor), repr(b[:2000]))
             if ntok > 8 and nodes / ntok > maxratio[0]: maxratio = (nodes / ntok, repr(b[:60]))
+        nm = nmodel.get(cid)
+        if nm is not None:
+            ncmp += 1
+            want = "ok nodes=%s decls=%s errors=%s" % (d.get("nodes"), d.get("decls"), d.get("nerr"))
+            if not nm.startswith(want + " "):
+                bad += 1; ck.violation("tie-broken:node-model", "node accounting differs from Model/DeltaNodes.v", "input: %r\nreal : %s\nmodel: %s" % (b[:2000], want, nm))
         if ntok > len(b) + 2:
             bad += 1; ck.violation("token-bound", "%d tokens for %d bytes" % (ntok, len(b)), repr(b[:2000]))
         m = model.get(cid)
@@ -126,12 +141,12 @@ def run(tier):
             k_ = c14.known_class(src)
             key = "valid-rejected:" + (k_ if (k_ and f[0] == "lexerr") else "return-as-plain-label" if re.search(r"\breturn:\s*\n\s*\}", src) is None and re.search(r"goto return|return:", src) and f[0] == "parseerr" else name)
             ck.violation(key, "the repository's valid sample %s is rejected by the second generation: %s" % (name, f[:4]), src)
-    ck.log("crash stream (debug + release): %d inputs %s; kinds %s; max nodes/token %.2f on %s" % (len(cases), dict(stats.most_common(8)), dict(kinds), maxratio[0], maxratio[1]))
+    ck.log("crash stream (debug + release): %d inputs, %d node counts compared with the model, %s; kinds %s; max nodes/token %.2f on %s" % (len(cases), ncmp, dict(stats.most_common(8)), dict(kinds), maxratio[0], maxratio[1]))
     if not proof_ok:
         ck.violation("tie-broken:proof", "Props/C15.v no longer checks", getattr(ck, "proof_output", "")[-2000:])
     ck.coverage.update(
         evaluations=2 * len(cases), distinct_nontrivial=len({c[1] for c in cases}), exhaustive_part=ntok_exh,
-        rule="every input through lex -> token dump -> parse -> errors -> header -> tree and header dumps (staged as main.rs does: no parse after lexical errors, no header or dumps after syntax errors) in isolated workers, in a debug build (overflow checks, debug assertions) AND a release build, results compared: mutated corpus, generated programs with faults, token soup, CRLF variants, random bytes and random bytes over a lexically dense alphabet (NUL, 0xFF, multi-byte), generated valid programs (must be accepted), inputs of extreme node density (x+x+..., &&&&, nested parentheses, long member/index chains, argument / array / structure lists), ALL token sequences up to length %d over %d tokens, inputs of 64-256 KiB; checked: no panic / signal / timeout, nodes <= %d + %d * tokens (the regenerated capacity), tokens <= bytes + 2, lexical verdict = 'the extracted lexer model finds an Error token'" % (L, len(TOKENS), ctx, factor),
-        outcomes=dict(stats), input_kinds=dict(kinds), problems=bad, max_nodes_per_token=round(maxratio[0], 3), node_capacity="%d + %d * tokens" % (ctx, factor),
+        rule="every input through lex -> token dump -> parse -> errors -> header -> tree and header dumps (staged as main.rs does: no parse after lexical errors, no header or dumps after syntax errors) in isolated workers, in a debug build (overflow checks, debug assertions) AND a release build, results compared: mutated corpus, generated programs with faults, token soup, CRLF variants, random bytes and random bytes over a lexically dense alphabet (NUL, 0xFF, multi-byte), generated valid programs (must be accepted), inputs of extreme node density (x+x+..., &&&&, nested parentheses, long member/index chains, argument / array / structure lists), ALL token sequences up to length %d over %d tokens, inputs of 64-256 KiB; checked: no panic / signal / timeout, nodes <= %d + %d * tokens (the regenerated capacity), tokens <= bytes + 2, lexical verdict = 'the extracted lexer model finds an Error token', node / declaration / error counts = Model/DeltaNodes.v run on the token kinds the real lexer produced" % (L, len(TOKENS), ctx, factor),
+        outcomes=dict(stats), input_kinds=dict(kinds), problems=bad, node_model_compared=ncmp, max_nodes_per_token=round(maxratio[0], 3), node_capacity="%d + %d * tokens" % (ctx, factor),
         samples=[dict(kind=cases[0][2], input=repr(cases[0][1][:200]), outcome=impl.get(cases[0][0], ["?"])[:5])])
     return ck.finish()
